@@ -392,7 +392,7 @@ PROP = Property(
           "= multiset signature of those events."),
     strategy=strategy,
     run_case=run_case,
-    budgets={"quick": 20000, "thorough": 500000},
+    budgets={"quick": 20000, "thorough": 1500000},
     assumptions=[
         "a listed PID that vanishes between the listing and its turn may be yielded or skipped",
         "object identity is asserted between passes during which no other iterator advanced",
